@@ -192,6 +192,11 @@ func TestCheck(t *testing.T) {
 	var worlds []*wc
 	for _, class := range classes {
 		for _, mode := range modes {
+			if mode == "classic" && class != "plain" && !vk.Thorough() {
+				// the corpus-less handler has a single candidate source and no sorted one: the
+				// deleted / claim-less classes add nothing the plain class does not show; thorough only
+				continue
+			}
 			w, err := buildWorld(class, mode)
 			if err != nil {
 				res.EngineError("building world %s/%s: %v", class, mode, err)
@@ -249,7 +254,11 @@ func TestCheck(t *testing.T) {
 		for _, x := range worlds {
 			fmt.Printf("TIME %s %v queries=%d\n", x.w.name(), x.busy.Round(time.Millisecond), x.ck.st.queries)
 		}
-		printCoverage(worlds[0].ck, worlds[1].ck, worlds[2].ck, worlds[3].ck, worlds[4].ck, worlds[5].ck, worlds[6].ck, worlds[7].ck, worlds[8].ck)
+		var cks []*checker
+		for _, x := range worlds {
+			cks = append(cks, x.ck)
+		}
+		printCoverage(cks...)
 	}
 	res.Write()
 }
